@@ -1,3 +1,475 @@
 package main
 
-func runC13() {}
+import (
+	"bytes"
+	"encoding/json"
+	"fmt"
+	"os"
+	"os/exec"
+	"path/filepath"
+	"runtime"
+	"sort"
+	"strings"
+
+	"github.com/go-spatial/geom"
+	ggpkg "github.com/go-spatial/geom/encoding/gpkg"
+	"github.com/pdok/texel/snap"
+	"github.com/pdok/texel/tms20"
+	"verif/engine/ev"
+)
+
+// ---- feature alphabet (NetherlandsRDNewQuad; pixel 6.72 at id 5, 0.84 at id 8, 0.21 at id 10) ----
+
+func sq(x, y, s float64) [][2]float64 {
+	return [][2]float64{{x, y}, {x + s, y}, {x + s, y + s}, {x, y + s}}
+}
+
+func polyKind(kind string, i int) geom.Polygon {
+	ox, oy := 155000.0+300*float64(i), 463000.0
+	switch kind {
+	case "plain":
+		return geom.Polygon{sq(ox+3.1, oy+2.2, 100.3)}
+	case "hole":
+		h := sq(ox+40.2, oy+40.7, 30.1)
+		return geom.Polygon{sq(ox+1.3, oy+0.7, 120.9), {h[0], h[3], h[2], h[1]}}
+	case "cw": // shell given clockwise
+		s := sq(ox+5.5, oy+7.5, 80.25)
+		return geom.Polygon{{s[0], s[3], s[2], s[1]}}
+	case "pinch": // two 60 m squares joined by a 0.5 m wide neck: pinches off at id 5
+		return geom.Polygon{{{ox, oy}, {ox + 60, oy}, {ox + 60, oy + 30}, {ox + 80, oy + 30}, {ox + 80, oy}, {ox + 140, oy}, {ox + 140, oy + 60}, {ox + 80, oy + 60}, {ox + 80, oy + 30.5}, {ox + 60, oy + 30.5}, {ox + 60, oy + 60}, {ox, oy + 60}}}
+	case "small": // collapses at id 5, survives at ids 8 and 10
+		return geom.Polygon{sq(ox+10.1, oy+10.1, 2.4)}
+	case "tiny": // collapses at every id of the lattice
+		return geom.Polygon{sq(ox+10.01, oy+10.01, 0.04)}
+	case "outside": // one vertex left of the RD extent
+		return geom.Polygon{{{ox, oy}, {ox + 50, oy}, {-300000, oy + 25}}}
+	}
+	panic("unknown kind " + kind)
+}
+
+func multiKind(kind string, i int) geom.MultiPolygon {
+	switch kind {
+	case "m-two":
+		return geom.MultiPolygon{polyKind("plain", 10+i), polyKind("hole", 20+i)}
+	case "m-mixed": // one part survives everywhere, one collapses at id 5, one everywhere
+		return geom.MultiPolygon{polyKind("plain", 30+i), polyKind("small", 31+i), polyKind("tiny", 32+i)}
+	case "m-collapse": // nothing survives at id 5
+		return geom.MultiPolygon{polyKind("small", 40+i), polyKind("tiny", 41+i)}
+	case "m-outside":
+		return geom.MultiPolygon{polyKind("plain", 50+i), polyKind("outside", 51+i)}
+	}
+	panic("unknown kind " + kind)
+}
+
+type c13Source struct {
+	Polys  []string `json:"polygon_table"`      // kinds, table "parcels" (POLYGON, geometry column in the middle)
+	Multis []string `json:"multipolygon_table"` // kinds, table "regions" (MULTIPOLYGON)
+	Points int      `json:"point_rows"`         // table "pois" (POINT)
+	Lines  int      `json:"line_rows"`          // table "roads" (LINESTRING)
+	Tables []string `json:"tables"`             // which tables exist, in creation order
+}
+
+type c13Case struct {
+	Name      string    `json:"sub_lattice"`
+	TMS       string    `json:"tms"`
+	IDs       []int     `json:"ids"`
+	Page      int       `json:"page_size"` // 0 = default (flag omitted)
+	Keep      bool      `json:"keep"`
+	Ignore    bool      `json:"ignore_outside_grid"`
+	Reverse   bool      `json:"reverse"`
+	Overwrite bool      `json:"overwrite"`
+	Existing  bool      `json:"pre_existing_targets"`
+	Path      string    `json:"target_path"`
+	Src       c13Source `json:"source"`
+	UseEnv    bool      `json:"flags_via_environment"`
+}
+
+func (s c13Source) key() string { b, _ := json.Marshal(s); return string(b) }
+
+func (s c13Source) hasOutside() bool {
+	for _, k := range s.Polys {
+		if k == "outside" {
+			return true
+		}
+	}
+	for _, k := range s.Multis {
+		if k == "m-outside" {
+			return true
+		}
+	}
+	return false
+}
+
+var parcelsDef = tableDef{Name: "parcels", GCol: "geom", GType: ggpkg.Polygon, Cols: []colDef{{Name: "fid", Type: "INTEGER", NotNull: true, PK: true}, {Name: "name", Type: "TEXT"}, {Name: "geom", Type: "POLYGON"}, {Name: "val", Type: "REAL"}}}
+var regionsDef = tableDef{Name: "regions", GCol: "shape", GType: ggpkg.MultiPolygon, Cols: []colDef{{Name: "id", Type: "INTEGER", NotNull: true, PK: true}, {Name: "shape", Type: "MULTIPOLYGON"}}}
+var poisDef = tableDef{Name: "pois", GCol: "geom", GType: ggpkg.Point, Cols: []colDef{{Name: "fid", Type: "INTEGER", NotNull: true, PK: true}, {Name: "label", Type: "TEXT"}, {Name: "geom", Type: "POINT"}}}
+var roadsDef = tableDef{Name: "roads", GCol: "geom", GType: ggpkg.Linestring, Cols: []colDef{{Name: "fid", Type: "INTEGER", NotNull: true, PK: true}, {Name: "geom", Type: "LINESTRING"}}}
+
+func (s c13Source) build(path string) error {
+	var tables []tableDef
+	rows := map[string][]row{}
+	for _, t := range s.Tables {
+		switch t {
+		case "parcels":
+			tables = append(tables, parcelsDef)
+			for i, k := range s.Polys {
+				var name interface{} = fmt.Sprintf("%s-%d", k, i)
+				if i%3 == 2 {
+					name = nil
+				}
+				rows["parcels"] = append(rows["parcels"], row{Attrs: []interface{}{int64(i + 1), name, 0.5 + float64(i)}, Geom: polyKind(k, i)})
+			}
+		case "regions":
+			tables = append(tables, regionsDef)
+			for i, k := range s.Multis {
+				rows["regions"] = append(rows["regions"], row{Attrs: []interface{}{int64(10 * (i + 1))}, Geom: multiKind(k, i)})
+			}
+		case "pois":
+			tables = append(tables, poisDef)
+			for i := 0; i < s.Points; i++ {
+				rows["pois"] = append(rows["pois"], row{Attrs: []interface{}{int64(i + 1), fmt.Sprintf("poi %d", i)}, Geom: geom.Point{155000.5 + float64(i), 463000.25}})
+			}
+		case "roads":
+			tables = append(tables, roadsDef)
+			for i := 0; i < s.Lines; i++ {
+				rows["roads"] = append(rows["roads"], row{Attrs: []interface{}{int64(i + 1)}, Geom: geom.LineString{{155000, 463000 + float64(i)}, {155010.5, 463003.25}}})
+			}
+		}
+	}
+	return createSource(path, rdSRS, tables, rows)
+}
+
+func dedupSorted(ids []int) []int {
+	m := map[int]bool{}
+	var out []int
+	for _, i := range ids {
+		if !m[i] {
+			m[i] = true
+			out = append(out, i)
+		}
+	}
+	sort.Ints(out)
+	return out
+}
+
+// expectedName: insert _<id> before the extension of the given target path
+func expectedName(p string, id int) string {
+	dir, file := filepath.Split(p)
+	ext := ""
+	if i := strings.LastIndex(file, "."); i >= 0 {
+		ext = file[i:]
+		file = file[:i]
+	}
+	return filepath.Join(dir, fmt.Sprintf("%s_%d%s", file, id, ext))
+}
+
+// roundTrip normalises a geometry the way storing it in a GeoPackage does
+func roundTrip(g geom.Geometry) geom.Geometry {
+	sb, err := ggpkg.NewBinary(srsRD, g)
+	if err != nil {
+		ev.HarnessError("encode: %v", err)
+	}
+	b, err := sb.Encode()
+	if err != nil {
+		ev.HarnessError("encode: %v", err)
+	}
+	d, err := ggpkg.DecodeGeometry(b)
+	if err != nil {
+		ev.HarnessError("decode: %v", err)
+	}
+	return d.Geometry
+}
+
+func snapSafe(p geom.Polygon, tms tms20.TileMatrixSet, ids []int, cfg snap.Config) (res map[int][]geom.Polygon, pan any) {
+	defer func() {
+		if r := recover(); r != nil {
+			pan = r
+		}
+	}()
+	return snap.SnapPolygon(p, tms, ids, cfg), nil
+}
+
+func listFiles(dir string) map[string]bool {
+	out := map[string]bool{}
+	_ = filepath.Walk(dir, func(p string, info os.FileInfo, err error) error {
+		if err == nil && !info.IsDir() {
+			rel, _ := filepath.Rel(dir, p)
+			out[rel] = true
+		}
+		return nil
+	})
+	return out
+}
+
+// c13One runs the real binary for one case; returns the first discrepancy
+func c13One(texel, work string, shard int, c c13Case, srcCache map[string]string) (string, string) {
+	tms, err := tms20.LoadEmbeddedTileMatrixSet(c.TMS)
+	if err != nil {
+		ev.HarnessError("%v", err)
+	}
+	src, ok := srcCache[c.Src.key()]
+	if !ok {
+		src = filepath.Join(work, fmt.Sprintf("c13-src-%d-%d.gpkg", shard, len(srcCache)))
+		if err := c.Src.build(src); err != nil {
+			ev.HarnessError("cannot build source: %v", err)
+		}
+		srcCache[c.Src.key()] = src
+	}
+	outDir := filepath.Join(work, fmt.Sprintf("c13-out-%d", shard))
+	_ = os.RemoveAll(outDir)
+	if err := os.MkdirAll(filepath.Join(outDir, filepath.Dir(c.Path)), 0o755); err != nil {
+		ev.HarnessError("%v", err)
+	}
+	ids := dedupSorted(c.IDs)
+	if c.Existing {
+		for _, id := range ids {
+			old := filepath.Join(outDir, expectedName(c.Path, id))
+			oldSrc := c13Source{Tables: []string{"parcels", "roads"}, Polys: []string{"plain", "plain", "hole", "plain"}, Lines: 2}
+			if err := oldSrc.build(old); err != nil {
+				ev.HarnessError("cannot build pre-existing target: %v", err)
+			}
+		}
+	}
+	before := listFiles(outDir)
+	idsJSON, _ := json.Marshal(c.IDs)
+	args := []string{"-s", src, "-t", filepath.Join(outDir, c.Path), "-tms", c.TMS, "-z", string(idsJSON)}
+	env := os.Environ()
+	if c.Page > 0 {
+		args = append(args, "-p", fmt.Sprint(c.Page))
+	}
+	flag := func(on bool, short, envName string) {
+		if !on {
+			return
+		}
+		if c.UseEnv {
+			env = append(env, envName+"=true")
+		} else {
+			args = append(args, "-"+short)
+		}
+	}
+	flag(c.Overwrite, "o", "OVERWRITE")
+	flag(c.Keep, "pl", "KEEPPOINTSANDLINES")
+	flag(c.Ignore, "iog", "IGNOREOUTSIDEGRID")
+	flag(c.Reverse, "rwo", "REVERSEWINDINGORDER")
+	cmd := exec.Command(texel, args...)
+	cmd.Env = env
+	var stderr bytes.Buffer
+	cmd.Stderr = &stderr
+	cmd.Stdout = &stderr
+	runErr := cmd.Run()
+	tail := stderr.String()
+	if len(tail) > 600 {
+		tail = tail[len(tail)-600:]
+	}
+	if c.Src.hasOutside() && !c.Ignore {
+		// by C09 the library panics: only the exit status is specified
+		if runErr == nil {
+			return "outside-grid-exit-zero", "a feature outside the grid without ignore-outside-grid: the tool exited with status 0"
+		}
+		return "", ""
+	}
+	if runErr != nil {
+		return "nonzero-exit", fmt.Sprintf("the tool failed (%v): ...%s", runErr, tail)
+	}
+	// exactly the expected files
+	after := listFiles(outDir)
+	want := map[string]bool{}
+	for _, id := range ids {
+		want[expectedName(c.Path, id)] = true
+	}
+	for f := range after {
+		if !want[f] && !before[f] && !strings.HasSuffix(f, "-journal") && !strings.HasSuffix(f, "-wal") && !strings.HasSuffix(f, "-shm") {
+			return "unexpected-file", fmt.Sprintf("unexpected file %q created (expected %v)", f, keys(want))
+		}
+	}
+	for f := range want {
+		if !after[f] {
+			return "missing-file", fmt.Sprintf("expected target file %q was not created (directory has %v)", f, keys(after))
+		}
+	}
+	cfg := snap.Config{KeepPointsAndLines: c.Keep, IgnoreOutsideGrid: c.Ignore, ReverseWindingOrder: c.Reverse}
+	sdb, err := openDB(src)
+	if err != nil {
+		ev.HarnessError("%v", err)
+	}
+	defer sdb.Close()
+	for _, id := range ids {
+		tdb, err := openDB(filepath.Join(outDir, expectedName(c.Path, id)))
+		if err != nil {
+			return "unreadable-target", err.Error()
+		}
+		sig, what := c13CompareDB(sdb, tdb, c, tms, ids, id, cfg)
+		tdb.Close()
+		if sig != "" {
+			return sig, fmt.Sprintf("target for tile matrix %d: %s", id, what)
+		}
+	}
+	return "", ""
+}
+
+func keys(m map[string]bool) []string {
+	var o []string
+	for k := range m {
+		o = append(o, k)
+	}
+	sort.Strings(o)
+	return o
+}
+
+type c13Shard struct {
+	States, Nontrivial int64
+	Samples            []any
+	Exhaustive         bool
+	PerLattice         map[string]int64
+}
+
+func c13Cases(thorough bool) []c13Case {
+	var cs []c13Case
+	rd := "NetherlandsRDNewQuad"
+	s1 := c13Source{Tables: []string{"parcels", "pois"}, Polys: []string{"plain", "pinch", "small", "tiny", "hole", "cw"}, Points: 3}
+	// L1: ids x flags x page sizes
+	for _, ids := range [][]int{{5}, {8, 5}, {5, 8, 10}, {5, 5}} {
+		for _, keep := range []bool{false, true} {
+			for _, rev := range []bool{false, true} {
+				for _, page := range []int{1, 2, 0} {
+					cs = append(cs, c13Case{Name: "L1 ids x keep x reverse x page", TMS: rd, IDs: ids, Page: page, Keep: keep, Reverse: rev, Path: "out.gpkg", Src: s1})
+				}
+			}
+		}
+	}
+	// L2: all eight flag combinations on a source with a feature outside the grid, flags on the command line and via environment
+	s2 := c13Source{Tables: []string{"parcels", "regions"}, Polys: []string{"plain", "outside", "cw", "small"}, Multis: []string{"m-outside", "m-two"}}
+	for m := 0; m < 8; m++ {
+		for _, viaEnv := range []bool{false, true} {
+			cs = append(cs, c13Case{Name: "L2 all flag combinations, outside-grid feature", TMS: rd, IDs: []int{5, 8}, Page: 2, Keep: m&1 != 0, Ignore: m&2 != 0, Reverse: m&4 != 0, Path: "o.gpkg", Src: s2, UseEnv: viaEnv})
+		}
+	}
+	// the same flag combinations on an in-grid source (each flag must reach its own option)
+	s2b := c13Source{Tables: []string{"parcels"}, Polys: []string{"cw", "small", "pinch"}}
+	for m := 0; m < 8; m++ {
+		cs = append(cs, c13Case{Name: "L2b all flag combinations, in-grid source", TMS: rd, IDs: []int{5, 8}, Page: 1000, Keep: m&1 != 0, Ignore: m&2 != 0, Reverse: m&4 != 0, Path: "o.gpkg", Src: s2b})
+	}
+	// L3: target path shapes x target scenario x ids
+	for _, p := range []string{"out.gpkg", "sub.dir/out.v1.gpkg", "noext", "a.b.c.gpkg", "dir.d/noext"} {
+		for _, scen := range []struct{ ov, ex bool }{{false, false}, {true, false}, {true, true}} {
+			for _, ids := range [][]int{{5}, {5, 8}} {
+				cs = append(cs, c13Case{Name: "L3 path shape x overwrite scenario x ids", TMS: rd, IDs: ids, Page: 2, Overwrite: scen.ov, Existing: scen.ex, Path: p, Src: s2b})
+			}
+		}
+	}
+	// L4: family of sources: every sequence of <= 2 polygon kinds x every sequence of <= 1 multipolygon kinds, plus point/line tables
+	pk := []string{"plain", "pinch", "small", "tiny", "hole", "cw"}
+	mk := []string{"m-two", "m-mixed", "m-collapse"}
+	var pseqs [][]string
+	pseqs = append(pseqs, nil)
+	for _, a := range pk {
+		pseqs = append(pseqs, []string{a})
+		for _, b := range pk {
+			pseqs = append(pseqs, []string{a, b})
+		}
+	}
+	mseqs := [][]string{nil}
+	for _, a := range mk {
+		mseqs = append(mseqs, []string{a})
+	}
+	if thorough {
+		for _, a := range mk {
+			for _, b := range mk {
+				mseqs = append(mseqs, []string{a, b})
+			}
+		}
+	}
+	for pi, ps := range pseqs {
+		for mi, ms := range mseqs {
+			src := c13Source{Tables: []string{"regions", "parcels", "roads"}, Polys: ps, Multis: ms, Lines: (pi + mi) % 3}
+			cs = append(cs, c13Case{Name: "L4 source family", TMS: rd, IDs: []int{5, 8}, Page: 1 + (pi+mi)%2, Keep: (pi+mi)%2 == 0, Path: "t.gpkg", Src: src})
+		}
+	}
+	if thorough {
+		// L5: page sizes x three-table sources with three rows each
+		for _, page := range []int{1, 2, 3, 4, 1000} {
+			for _, ids := range [][]int{{5}, {10, 8, 5}} {
+				src := c13Source{Tables: []string{"parcels", "regions", "pois", "roads"}, Polys: []string{"pinch", "small", "plain"}, Multis: []string{"m-mixed", "m-collapse", "m-two"}, Points: 3, Lines: 3}
+				for m := 0; m < 4; m++ {
+					cs = append(cs, c13Case{Name: "L5 page sizes x four tables", TMS: rd, IDs: ids, Page: page, Keep: m&1 != 0, Reverse: m&2 != 0, Path: "x.y.gpkg", Src: src})
+				}
+			}
+		}
+	}
+	return cs
+}
+
+func runC13() {
+	r := ev.New("C13")
+	work := os.Getenv("VERIF_WORK")
+	texel := os.Getenv("VERIF_TEXEL_BIN")
+	if texel == "" {
+		ev.HarnessError("VERIF_TEXEL_BIN not set")
+	}
+	cases := c13Cases(r.Thorough())
+	if rp := os.Getenv("VERIF_REPLAY"); rp != "" {
+		b, _ := os.ReadFile(rp)
+		var f struct {
+			Case c13Case `json:"case"`
+		}
+		if err := json.Unmarshal(b, &f); err != nil {
+			ev.HarnessError("%v", err)
+		}
+		if sig, what := c13One(texel, work, 99, f.Case, map[string]string{}); sig != "" {
+			r.Violation(sig, what, f.Case)
+		}
+		r.Exit()
+	}
+	if r.IsShard() {
+		sd := c13Shard{Exhaustive: true, PerLattice: map[string]int64{}}
+		cache := map[string]string{}
+		for i, c := range cases {
+			if i%r.ShardN != r.ShardI {
+				continue
+			}
+			if r.Expired() {
+				sd.Exhaustive = false
+				break
+			}
+			sd.States++
+			sd.PerLattice[c.Name]++
+			if len(c.Src.Polys)+len(c.Src.Multis) > 0 {
+				sd.Nontrivial++
+			}
+			if sig, what := c13One(texel, work, r.ShardI, c, cache); sig != "" {
+				b, _ := json.Marshal(c)
+				r.Violation(sig, fmt.Sprintf("%s: %s; case %s", c.Name, what, b), c)
+			}
+			if len(sd.Samples) < 1 && i > 40 {
+				sd.Samples = append(sd.Samples, c)
+			}
+		}
+		r.FinishShard(sd)
+	}
+	parts := r.RunShards(runtime.NumCPU())
+	tot := c13Shard{Exhaustive: true, PerLattice: map[string]int64{}}
+	for _, raw := range parts {
+		var sd c13Shard
+		_ = json.Unmarshal(raw, &sd)
+		tot.States += sd.States
+		tot.Nontrivial += sd.Nontrivial
+		tot.Samples = append(tot.Samples, sd.Samples...)
+		tot.Exhaustive = tot.Exhaustive && sd.Exhaustive
+		for k, v := range sd.PerLattice {
+			tot.PerLattice[k] += v
+		}
+	}
+	if len(tot.Samples) > 4 {
+		tot.Samples = tot.Samples[:4]
+	}
+	if len(tot.Samples) == 0 {
+		tot.Samples = []any{"none"}
+	}
+	r.Assumptions = []string{"the 'spatialite' driver stub compiled into the binary by overlay (build tag verif)", "reference = snap.SnapPolygon from the same working tree applied to the decoded source rows (so C13 checks the plumbing, not the snapping)", "sources with a feature outside the grid and ignore off: only the non-zero exit status is checked (the library panics by C09)"}
+	r.Finish(map[string]any{
+		"states": tot.States, "transitions": tot.States, "traces_validated_against_impl": 0, "samples": tot.Samples,
+		"evaluations": tot.States, "distinct_nontrivial": tot.Nontrivial, "exhaustive": tot.Exhaustive && int(tot.States) == len(cases),
+		"runs_per_sub_lattice": tot.PerLattice,
+		"rule":                 "state = one invocation of the real texel binary; the lattice is the union of fully enumerated sub-lattices: L1 id lists (single, descending, three, duplicate) x keep x reverse x page size {1,2,default}; L2 all 8 flag combinations (command line and environment) on a source with an outside-grid feature and on an in-grid source; L3 5 target path shapes x {fresh, overwrite, pre-existing + overwrite} x ids; L4 every sequence of <= 2 polygon kinds x <= 1 (thorough 2) multipolygon kinds with line table; thorough L5 page sizes x four tables; each run is compared file by file, table by table, row by row with the reference; non-trivial = sources with at least one (multi)polygon",
+	})
+}
